@@ -49,8 +49,46 @@ def _is_sym(x):
 
 
 class _Flags:
-    def __init__(self):
-        self.writeable = True
+    def __init__(self, writeable=True):
+        self.writeable = writeable
+
+
+class _ViewList:
+    """list-like window onto another element list (numpy basic-slice view)"""
+
+    def __init__(self, base, idxs):
+        self.base, self.idxs = base, list(idxs)
+
+    def __len__(self):
+        return len(self.idxs)
+
+    def __iter__(self):
+        return iter([self.base[i] for i in self.idxs])
+
+    def __getitem__(self, k):
+        if isinstance(k, slice):
+            return [self.base[i] for i in self.idxs[k]]
+        return self.base[self.idxs[k]]
+
+    def __setitem__(self, k, v):
+        if isinstance(k, slice):
+            tgt = self.idxs[k]
+            v = list(v)
+            if len(v) != len(tgt):
+                raise ValueError("view size cannot change")
+            for i, x in zip(tgt, v):
+                self.base[i] = x
+        else:
+            self.base[self.idxs[k]] = v
+
+    def __add__(self, o):
+        return list(self) + list(o)
+
+    def __mul__(self, n):
+        return list(self) * n
+
+    def __eq__(self, o):
+        return list(self) == list(o)
 
 
 class SArr:
@@ -92,7 +130,7 @@ class SArr:
         return iter(self.elems)
 
     def copy(self):
-        return SArr(self.elems, self.dtype, self.item_shape)
+        return SArr(list(self.elems), self.dtype, self.item_shape)
 
     def view(self, *a):
         """alias: shares the element storage with ``self``"""
@@ -103,12 +141,35 @@ class SArr:
         v.dtype = self.dtype
         v.item_shape = self.item_shape
         v.version = 0
-        v.flags = _Flags()
-        v.base = self
+        v.flags = _Flags(self.flags.writeable)
+        v.base = self if self.base is None else self.base
         return v
 
+    def setflags(self, write=None, **kw):
+        if write is not None:
+            if write and self.base is not None and \
+                    not self.base.flags.writeable:
+                raise ValueError("cannot set WRITEABLE flag to True of this "
+                                 "array")
+            self.flags.writeable = bool(write)
+
+    def reshape(self, *shape):
+        if len(shape) == 1 and isinstance(shape[0], tuple):
+            shape = shape[0]
+        if tuple(shape) in ((len(self.elems),), (-1,)) and \
+                not self.item_shape:
+            return self.view()
+        raise NotModelled("reshape %r" % (shape,))
+
+    def shares_memory(self, other):
+        a = self if self.base is None else self.base
+        b = other if other.base is None else other.base
+        return a is b
+
     def astype(self, dtype, copy=True):
-        return SArr(self.elems, dtype, self.item_shape)
+        if not copy and real_np.dtype(dtype) == self.dtype:
+            return self
+        return SArr(list(self.elems), dtype, self.item_shape)
 
     def tolist(self):
         return list(self.elems)
@@ -178,6 +239,17 @@ class SArr:
         kind, v = self._norm_index(idx)
         if kind == "int":
             return self.elems[v]
+        if kind == "list" and (isinstance(idx, slice) or idx is Ellipsis or (
+                isinstance(idx, tuple) and isinstance(idx[0], slice))):
+            # basic slicing: a VIEW that shares storage with self
+            r = SArr.__new__(SArr)
+            r.elems = _ViewList(self.elems, v)
+            r.dtype = self.dtype
+            r.item_shape = self.item_shape
+            r.version = 0
+            r.flags = _Flags(self.flags.writeable)
+            r.base = self if self.base is None else self.base
+            return r
         if kind == "list":
             return SArr([self.elems[i] for i in v], self.dtype,
                         self.item_shape)
@@ -562,7 +634,9 @@ class SymNP:
         if hasattr(a, "__symarray__"):
             a = a.__symarray__()
         if isinstance(a, (SArr, SMat)):
-            return a if dtype is None else a.astype(dtype)
+            if dtype is None or real_np.dtype(dtype) == a.dtype:
+                return a                       # no copy (as numpy)
+            return a.astype(dtype)
         if isinstance(a, (list, tuple)) and any(
                 _is_sym(x) or isinstance(x, Tok) for x in a):
             return SArr(list(a), dtype or _guess_dtype(a))
@@ -574,7 +648,9 @@ class SymNP:
             a = a.__symarray__()
         if isinstance(a, (SArr, SMat)):
             if copy is False or copy is None:
-                return a if dtype is None else a.astype(dtype)
+                if dtype is None or real_np.dtype(dtype) == a.dtype:
+                    return a
+                return a.astype(dtype)
             r = a.copy()
             return r if dtype is None else r.astype(dtype)
         if isinstance(a, (list, tuple)) and any(
@@ -607,6 +683,17 @@ class SymNP:
     def zeros_like(a, dtype=None):
         dt = real_np.dtype(dtype or a.dtype)
         return SArr([False if dt == bool else 0] * len(a), dt)
+
+    @staticmethod
+    def full(shape, fill, dtype=float):
+        n = shape if not isinstance(shape, tuple) else shape[0]
+        return SArr([fill] * _conc_int(n), dtype)
+
+    @staticmethod
+    def shares_memory(a, b):
+        if isinstance(a, SArr) and isinstance(b, SArr):
+            return a.shares_memory(b)
+        return real_np.shares_memory(a, b)
 
     @staticmethod
     def arange(*a, **kw):
@@ -860,6 +947,8 @@ def _np_zeros(shape, dtype=float):
 
 SymNP._zeros1 = SymNP.zeros
 SymNP.zeros = staticmethod(_np_zeros)
+SymNP.empty = staticmethod(lambda shape, dtype=float, *a, **k:
+                           _np_zeros(shape, dtype))
 
 
 def _np_invert(a, out=None):
